@@ -67,7 +67,7 @@ def run (c : Case) : String :=
   let sub := parseCtx (c.getD "sub" "-")
   let op := c.getD "op" "?"
   let p := parseInts (c.getD "p" "-")
-  let mode := if c.getD "mode" "sync" == "async" then Mode.async else Mode.sync
+  let mode := if c.getD "mode" "sync" == "async" then Mode.async else if c.getD "mode" "sync" == "tdrace" then Mode.tdrace else Mode.sync
   let cutS := c.getD "cut" "-"
   let cut : Option Nat := if cutS == "-" then none else cutS.toNat?
   let cutBad := cutS != "-" && (cut == none || cut == some 0)
@@ -78,7 +78,8 @@ def run (c : Case) : String :=
   | none => s!"res {c.id} bad-script"
   | some outs =>
     let isRetry := op == "Retry" || op == "RetryWithConfig"
-    if cutBad || (op == "Catch" && mode == Mode.async && cut.isSome) || (cancelS != "-" && !isRetry) then
+    if cutBad || (op == "Catch" && mode != Mode.sync && cut.isSome) || (cancelS != "-" && !isRetry)
+        || (mode == Mode.tdrace && (op == "Catch" || cut.isSome || cancelS != "-")) then
       s!"res {c.id} unsupported"
     else
       let r : Option Result :=
@@ -99,6 +100,7 @@ def run (c : Case) : String :=
       match r with
       | none => s!"res {c.id} unsupported"
       | some r =>
+        let r := if mode == Mode.tdrace then { r with log := overlapLog r.attempts } else r
         s!"res {c.id} trace={renderTrace (deliver cut r.raw)} log={renderLog r.log} attempts={r.attempts} live={maxLive r.log} evals={r.evals}"
 
 end Ro.Driver.Drivers.Resub
